@@ -12,6 +12,7 @@ and records ndjson, (c) TLC validates the record with Trace_*.tla and prints MON
 """
 import collections
 import glob
+import hashlib
 import json
 import os
 import re
@@ -79,6 +80,37 @@ def jconst(c):
     return {k: (sorted(v) if isinstance(v, (set, frozenset)) else v) for k, v in c.items()}
 
 
+def mc_with_cases(d, module, name, consts, invariants, properties=(), workers=3, timeout=1200):
+    """Exhaustive model check that also serialises the case table (OutFile).  vk.tlc_mc memoises model-check results per
+    (specification, cfg), so the table is kept in a cache of its own, keyed by the same inputs: when it exists the
+    check runs (or is reused) with OutFile = "", otherwise TLC is forced to run and writes it."""
+    h = hashlib.sha256()
+    for f in sorted(glob.glob(os.path.join(SPEC_DIR, "*.tla"))):
+        h.update(os.path.basename(f).encode())
+        h.update(open(f, "rb").read())
+    h.update(json.dumps([module, name, jconst(consts)], sort_keys=True).encode())
+    cdir = os.path.join(vk.CACHE, "funcsB_cases")
+    os.makedirs(cdir, exist_ok=True)
+    cases = os.path.join(cdir, "%s-%s.json" % (name, h.hexdigest()[:24]))
+    have = os.path.exists(cases)
+    tmp = cases + ".%d.tmp" % os.getpid()
+    c = dict(consts)
+    c["OutFile"] = "" if have else tmp
+    cfg = os.path.join(d, name + ("" if have else "_gen") + ".cfg")
+    vk.write_cfg(cfg, "Spec", c, invariants=invariants, properties=properties)
+    r = vk.tlc_mc(d, module, cfg, workers=workers, timeout=timeout, reuse=have)
+    if not have:
+        if not os.path.exists(tmp):
+            raise vk.Infra("%s: the model check did not write the case table" % name)
+        os.replace(tmp, cases)
+        for old in sorted(glob.glob(os.path.join(cdir, name + "-*.json")), key=os.path.getmtime)[:-3]:
+            try:
+                os.remove(old)
+            except OSError:
+                pass
+    return r, cases
+
+
 def run_go(binary, test, env, what):
     rc, out = vk.run_driver(binary, test, env)
     if rc != 0:
@@ -129,11 +161,9 @@ def router_part(tier, seed, binary, workdir, name, consts, sz, only_case=None):
     cases_path = os.path.join(workdir, name + "_cases.json")
     version = consts["VERSION"]
     if only_case is None:
-        cfg = os.path.join(d, name + ".cfg")
-        c = dict(consts)
-        c["OutFile"] = cases_path
-        vk.write_cfg(cfg, "Spec", c, invariants=["Inv"], properties=["OnlyGrows", "RefusalJustified", "AmbiguousNeverAccepted"])
-        r = vk.tlc_mc(d, "MC_Router", cfg, workers=3, timeout=900 if tier == "quick" else 3000)
+        r, cases_path = mc_with_cases(d, "MC_Router", name, consts, ["Inv"],
+                                      ["OnlyGrows", "RefusalJustified", "AmbiguousNeverAccepted"], workers=3,
+                                      timeout=900 if tier == "quick" else 3000)
         seen = need_witnesses(name, r["out"], ROUTER_WITNESS[version])
         part["mc"][name] = {"distinct": r["distinct"], "generated": r["generated"], "depth": r["depth"], "witnesses": seen,
                             "constants": jconst(consts)}
@@ -210,9 +240,7 @@ def keys_part(tier, seed, binary, workdir, world, only_tuples=None):
     d = vk.scratch_spec(SPEC_DIR)
     cases_path = os.path.join(workdir, name + "_cases.json")
     if only_tuples is None:
-        cfg = os.path.join(d, name + ".cfg")
-        vk.write_cfg(cfg, "Spec", dict(WORLD=world, TraceFile="", OutFile=cases_path), invariants=["Inv"])
-        r = vk.tlc_mc(d, "MC_StoreKeys", cfg, workers=3, timeout=1200)
+        r, cases_path = mc_with_cases(d, "MC_StoreKeys", name, dict(WORLD=world, TraceFile=""), ["Inv"], workers=3, timeout=1200)
         seen = need_witnesses(name, r["out"], KEYS_WITNESS)
         m = re.search(r'<<"TABLE", (\d+)>>', r["out"])
         part["mc"][name] = {"distinct": r["distinct"], "generated": r["generated"], "depth": r["depth"], "witnesses": seen,
@@ -354,11 +382,7 @@ def merkle_part(tier, seed, binary, workdir, sz, only_doc=None):
     consts = dict(sz["merkle"])
     cases_path = os.path.join(workdir, "merkle_cases.json")
     if only_doc is None:
-        cfg = os.path.join(d, "merkle_mc.cfg")
-        c = dict(consts)
-        c["OutFile"] = cases_path
-        vk.write_cfg(cfg, "Spec", c, invariants=["Inv"])
-        r = vk.tlc_mc(d, "MC_Merkle", cfg, workers=3, timeout=1800)
+        r, cases_path = mc_with_cases(d, "MC_Merkle", name, consts, ["Inv"], workers=3, timeout=1800)
         seen = need_witnesses(name, r["out"], MERKLE_WITNESS)
         part["mc"][name] = {"distinct": r["distinct"], "generated": r["generated"], "depth": r["depth"], "witnesses": seen,
                             "constants": jconst(consts)}
